@@ -39,7 +39,10 @@ QUICK_RENDERINGS = (0, 1, 2, 3, 6, 7)
 
 
 def shapes(tier, seed):
-    out = [('window', 'sym-date'), ('window', 'month-end'), ('window', 'year-end'), ('window', 'leap-day')]
+    out = [('window', 'sym-date'), ('window', 'month-end'), ('window', 'year-end'), ('window', 'leap-day'),
+           # requests outside the window against a key provider that is not ready (readiness error / pending first): the refusal
+           # comes before the provider is looked at in any way
+           ('window', 'stale-ready-err'), ('window', 'stale-ready-pending')]
     for i in (range(len(RENDERINGS)) if tier == 'thorough' else QUICK_RENDERINGS):
         out.append(('pipeline', i))
     return out
@@ -68,6 +71,8 @@ def run_shape(prog, shape, tier, seed, res):
             sn = ctx.fresh_bv('sn', 32)
             delta = ctx.fresh_bv('delta', 32)
             ctx.assume(z3.And(z3.ULT(rn, 1000000000), z3.ULT(sn, 1000000000), delta >= -1300, delta <= 1300))
+            if shape[1].startswith('stale-'):
+                ctx.assume(z3.Or(delta > 900, delta < -900))
             req_dt = C.from_civil(y, mo, d, h, mi, s, rn, 0)
             srv_civil = C.shift_civil((y, mo, d, h, mi, s), delta)
             srv_dt = C.DateTime(z3.simplify(req_dt.secs + z3.SignExt(32, delta)), sn, srv_civil, 0)
@@ -75,6 +80,10 @@ def run_shape(prog, shape, tier, seed, res):
             sig = sym_bytes(ctx, 'sig', 64)
             key = sym_bytes(ctx, 'key', 32)
             prov = provider_ok(key)
+            if shape[1] == 'stale-ready-err':
+                prov = provider_ok(key, ready_err=BoxObj(Opaque('foreign_error', 'key store unavailable'), dyn='StringError'))
+            elif shape[1] == 'stale-ready-pending':
+                prov = provider_ok(key, ready_pending=2)
             auth = mk_auth(cred, req_dt, sig)
             fut = m.call('SigV4Authenticator::validate_signature',
                          [Ptr(Cell(auth), ()), str_ptr('r'), str_ptr('s'), srv_dt, C.TimeDelta(900), Ptr(Cell(prov), (), None, True)], None)
@@ -152,6 +161,8 @@ def run_shape(prog, shape, tier, seed, res):
             else:
                 inp = {'rendering': text, 'delta': model.eval(delta, model_completion=True).as_signed_long(),
                        'server_nanos': model.eval(sn, model_completion=True).as_long()}
+            if k == 'window' and shape[1].startswith('stale-'):
+                inp['provider_script'] = {'ready_err': {'foreign': 'key store unavailable'}} if shape[1] == 'stale-ready-err' else {'ready_pending': 2}
             res.findings.append(Finding(what, inp, None, None, repr(shape)))
         ncalls = len(prov.calls)
         if cls in ('expired', 'future'):
@@ -180,8 +191,9 @@ def run_shape(prog, shape, tier, seed, res):
 
 # --------------------------------------------------------------------------- concrete side
 
-def native_window(rp, req7, server_nanos, delta, text=None):
+def native_window(rp, req7, server_nanos, delta, text=None, provider_script=None):
     import datetime
+    pscript = dict(provider_script or {})
     if text is not None:
         hdrs = [['host', b'example.amazonaws.com'.hex()], ['x-amz-date', text.encode().hex()]]
         sig, _, _ = py_sign(AWS_SECRET, 'GET', b'/', b'', [('host', b'example.amazonaws.com'), ('x-amz-date', text.encode())],
@@ -198,9 +210,10 @@ def native_window(rp, req7, server_nanos, delta, text=None):
                     'credential': 'AKID/%04d%02d%02d/r/s/aws4_request' % (y, mo, d), 'session_token': None, 'signature': '0' * 64,
                     'timestamp': {'secs': secs, 'nanos': rn}, 'call': 'validate_signature', 'region': 'r', 'service': 's',
                     'server_time': {'secs': secs + delta, 'nanos': server_nanos}, 'mismatch_secs': 900, 'mismatch_nanos': 0,
-                    'provider': {'result': {'signing_key_hex': '00' * 32}}, 'log_level': 'off'})
+                    'provider': dict(pscript, result={'signing_key_hex': '00' * 32}), 'log_level': 'off'})
         res = r.get('result', {})
-        calls = len(r.get('provider', {}).get('calls', []))
+        # any look at the provider counts: calls and readiness polls
+        calls = len(r.get('provider', {}).get('calls', [])) + (r.get('provider', {}).get('poll_ready_calls', 0) if pscript else 0)
     if 'ok' in res:
         return ('ok', calls)
     if 'err' in res:
@@ -224,7 +237,7 @@ def ref_class(rn, sn, delta):
 def replay_finding(rp, f):
     inp = f.inp
     if 'request' in inp:
-        nat = native_window(rp, inp['request'], inp['server_nanos'], inp['delta'])
+        nat = native_window(rp, inp['request'], inp['server_nanos'], inp['delta'], None, inp.get('provider_script'))
         ref = ref_class(inp['request'][6], inp['server_nanos'], inp['delta'])
     elif 'rendering' in inp:
         text = inp['rendering']
